@@ -53,6 +53,19 @@ type (
 		// ok returns false when there is no session or the session has expired.
 		RestoreSession(pid PrivateSessionID, offset string) (session *SessionToPersist, ok bool)
 	}
+
+	// An adapter may implement this in addition to RestoreSession.
+	//
+	// With RestoreSession alone, a packet that is broadcast after RestoreSession
+	// has returned and before the socket of the restored session is admitted to
+	// the namespace is neither among the missed packets nor delivered to the socket:
+	// the session is recovered with a gap.
+	SessionRestorer interface {
+		// Same as RestoreSession. admit is called with the restored session while
+		// broadcasts are held back. A packet is either among the missed packets, or
+		// it is broadcast after admit has returned.
+		RestoreSessionFunc(pid PrivateSessionID, offset string, admit func(session *SessionToPersist)) (ok bool)
+	}
 )
 
 type (
